@@ -1,5 +1,8 @@
 def lookup(pid):
     from checks import sigcheck, trackcheck
+    if pid in ("C09", "C10", "C11"):
+        from checks import exprcheck
+        return exprcheck.run
     if pid in sigcheck.CFG:
         return sigcheck.run
     if pid == "C16":
